@@ -272,9 +272,29 @@ func check(c *pbt.Ctx, cs Case) {
 			c.Failf("j2t-unexpected-error", "j2t fails: %s\ndocument: %s", errText(err), cs.Show)
 			return
 		default:
+			// same: the value is what the rule demands, up to the two other known native deviations (see explain)
+			same := func(g *tm.Value) bool {
+				if tm.DiffFieldsByID(want, g) == "" {
+					return true
+				}
+				doc, perr := jmodel.ParseRaw(cs.Text)
+				if perr != nil {
+					return false
+				}
+				var ex explain
+				return ex.walk(want, g, doc, cs.U.Root, cs.U, cs.O)
+			}
 			got, derr := tm.DecodeStrict(cs.U.Root.K, out)
 			if derr != nil {
-				c.Failf("j2t-output", "j2t output is not well-formed Thrift: %v\n%x\ndocument: %s", derr, head(out), cs.Show)
+				// known native deviation: a struct whose last member is null is closed while the output buffer has to grow for the
+				// fill-in of its absent fields; the rollback restores the write position from before the null member's field header
+				// was taken back, so that 3-byte header stays in the output. Attributed only if removing one 3-byte field header
+				// gives exactly the expected value.
+				reg := ""
+				if danglingHeader(out, want, cs.U.Root.K, same) {
+					reg = RegionPrefix + "j2t-native-null-last-member-regrow"
+				}
+				c.Fail(reg, "j2t-output", "j2t output is not well-formed Thrift: %v\n%x\ndocument: %s", derr, head(out), cs.Show)
 				return
 			}
 			if d := tm.DiffFieldsByID(want, got); d != "" {
@@ -291,6 +311,9 @@ func check(c *pbt.Ctx, cs Case) {
 							reg = RegionPrefix + "j2t-native-null-optional"
 						}
 					}
+				}
+				if reg == "" && danglingHeader(out, want, cs.U.Root.K, same) {
+					reg = RegionPrefix + "j2t-native-null-last-member-regrow" // the stray header happened to decode
 				}
 				if !c.Fail(reg, "j2t-fields", "j2t output differs from the rule (want vs got): %s\ndocument: %s", d, cs.Show) {
 					return
@@ -404,6 +427,23 @@ func check(c *pbt.Ctx, cs Case) {
 		c.NonTrivial()
 		c.Class("missing-required")
 	}
+}
+
+// danglingHeader reports whether out becomes the encoding of want once a single 3-byte sequence (a field header) is removed.
+func danglingHeader(out []byte, want *tm.Value, k tm.Kind, same func(got *tm.Value) bool) bool {
+	if want == nil || len(out) > 1<<16 {
+		return false
+	}
+	for i := 0; i+3 <= len(out); i++ {
+		if out[i] == 0 || out[i] > 15 {
+			continue // not a type byte
+		}
+		cand := append(append(make([]byte, 0, len(out)-3), out[:i]...), out[i+3:]...)
+		if got, err := tm.DecodeStrict(k, cand); err == nil && same(got) {
+			return true
+		}
+	}
+	return false
 }
 
 // explain decides whether every difference between the model's output and the converter's output is one of the
